@@ -587,4 +587,41 @@ theorem parseDoc_render (j : Json) (hw : WF j = true) : parseDoc (render j) = so
   rw [this]
   simp [skipWs]
 
+/-- only whitespace -/
+def AllWs (bs : Bytes) : Prop := ∀ b ∈ bs, isWs b = true
+
+theorem skipWs_allWs_append (ws rest : Bytes) (h : AllWs ws) : skipWs (ws ++ rest) = skipWs rest := by
+  induction ws with
+  | nil => rfl
+  | cons b r ih =>
+    have hb : isWs b = true := h b (by simp)
+    simp only [List.cons_append, skipWs, hb, if_true]
+    exact ih (fun x hx => h x (by simp [hx]))
+
+theorem skipWs_allWs (ws : Bytes) (h : AllWs ws) : skipWs ws = [] := by
+  have := skipWs_allWs_append ws [] h
+  simpa [skipWs] using this
+
+theorem numEnd_allWs (ws : Bytes) (h : AllWs ws) : NumEnd ws := by
+  cases ws with
+  | nil => trivial
+  | cons b r =>
+    have hb : isWs b = true := h b (by simp)
+    simp only [isWs, Bool.or_eq_true, decide_eq_true_eq] at hb
+    refine ⟨?_, ?_, ?_, ?_⟩
+    · rcases hb with ((rfl | rfl) | rfl) | rfl <;> decide
+    · rcases hb with ((rfl | rfl) | rfl) | rfl <;> decide
+    · rcases hb with ((rfl | rfl) | rfl) | rfl <;> decide
+    · rcases hb with ((rfl | rfl) | rfl) | rfl <;> decide
+
+/-- **whitespace around a document is immaterial**: any run of space / tab / CR / LF before and after the rendered
+    document reads back to the same tree -/
+theorem parseDoc_ws_render_ws (j : Json) (hw : WF j = true) (pre post : Bytes) (h1 : AllWs pre) (h2 : AllWs post) :
+    parseDoc (pre ++ (render j ++ post)) = some j := by
+  unfold parseDoc
+  rw [skipWs_allWs_append pre _ h1, skipWs_starts _ (render_starts j hw post)]
+  rw [parse_render j post _ hw (numEnd_allWs post h2) (by simp; omega)]
+  simp [skipWs_allWs post h2]
+
+
 end Psa.Model.JText
